@@ -378,6 +378,8 @@ struct Hist {
     /// (queue, position, payload) -> (file that received the first byte the append wrote,
     /// whether that byte was at offset 0 of the file with no padding before)
     attr: Vec<((String, u64, Vec<u8>), (u64, bool))>,
+    /// WAL files in which at least one entry starts (a Full or First frame was written there)
+    entry_starts: std::collections::BTreeSet<u64>,
 }
 
 struct Ctx<'a> {
@@ -440,6 +442,7 @@ fn crash_leaf_inner(stats: &mut Stats, dir: &Path, dir2: &Path, leaf: &Leaf, cfg
         batches: vec![],
         truncs: vec![],
         attr: vec![],
+        entry_starts: Default::default(),
     };
     let seed_len = leaf.seed.ops.len();
     let all_ops: Vec<&Op> = leaf.seed.ops.iter().chain(leaf.ops.iter().copied()).collect();
@@ -478,6 +481,13 @@ fn crash_leaf_inner(stats: &mut Stats, dir: &Path, dir2: &Path, leaf: &Leaf, cfg
         }
         if let COp::Trunc { q, pos } = &rec.cop {
             hist.truncs.push((q.clone(), *pos));
+        }
+        for e in &rec.events {
+            if let Event::BlockWrite { file_number, len, head, .. } = e {
+                if *len >= 7 && (head[6] == 1 || head[6] == 2) {
+                    hist.entry_starts.insert(*file_number);
+                }
+            }
         }
         if let (COp::Append { q, payloads, .. }, Outcome::Appended(Some(last))) = (&rec.cop, &rec.got) {
             let first_bw = rec.events.iter().find_map(|e| match e {
@@ -759,13 +769,17 @@ fn eval_image(stats: &mut Stats, ctx: &Ctx, image: &Image, point: &serde_json::V
             stats.nontrivial(&(files.clone(), oldest, ctx.op_index));
             if !excess.is_empty() {
                 let d4 = excess.len() == 1 && all_attr.iter().any(|a| a.0 == excess[0] + 1 && a.1) && all_attr.iter().all(|a| a.0 > excess[0]);
+                // D9: the crash interrupted a GC pass after it had unlinked the file holding the head
+                // of a multi-file entry; every excess file holds nothing but continuation frames of
+                // that entry (no entry starts in it, per the harness's own frame events)
+                let d9 = !d4 && excess.iter().all(|f| !hist.entry_starts.contains(f));
                 stats.violation(Violation {
                     property: cfg.property.into(),
-                    signature: if d4 { "D4-cursor-at-file-end".into() } else { "excess-file-after-recovery".into() },
+                    signature: if d4 { "D4-cursor-at-file-end".into() } else if d9 { "D9-continuation-only-file-after-interrupted-gc".into() } else { "excess-file-after-recovery".into() },
                     what: format!("after crash recovery the WAL files are {:?}, but the oldest retained record was written into file {:?} and the replay ended in file {} (the file being written when open began): file(s) {:?} should have been reclaimed by open", files, oldest.map(|o| o.0), begin_file, excess),
                     case: case_json(ctx, point, image),
                 });
-                if !d4 {
+                if !d4 && !d9 {
                     return;
                 }
             }
